@@ -380,3 +380,51 @@ VARIANTS += [
     V("c14-b2", "C14", "thompson", "_ThompsonSampling.fit", "rewards = self._get_binary_rewards(decisions, rewards)",
       "binary_rewards = self._get_binary_rewards(decisions, rewards)\nrewards = binary_rewards", benign=True),
 ]
+
+# ---------------------------------------------------------------------------------------------------- C08
+VARIANTS += [
+    V("c08-m1", "C08", "ucb", "_UCB1._drop_existing_arm", "self.arm_to_mean.pop(arm)", "", "R8.1",
+      why="mean of a removed arm stays behind"),
+    V("c08-m2", "C08", "clusters", "_Clusters._uptake_new_arm",
+      "for lp in self.lp_list:\n    lp.add_arm(arm, binarizer)", "self.lp_list[0].add_arm(arm, binarizer)", "R8.1",
+      why="only the first cluster policy learns about the new arm"),
+    V("c08-m3", "C08", "mab", "MAB.__init__",
+      "lp = _UCB1(self._rng, self.arms, self.n_jobs, self.backend, learning_policy.alpha)",
+      "lp = _UCB1(self._rng, list(self.arms), self.n_jobs, self.backend, learning_policy.alpha)", "R8.3",
+      why="policy works on a private copy of the arm list"),
+    V("c08-m4", "C08", "base_mab", "BaseMAB._parallel_predict",
+      "return predictions if len(predictions) > 1 else predictions[0]", "return predictions", "R8.5",
+      why="a single row yields a one-element list"),
+    V("c08-m5", "C08", "softmax", "_Softmax._uptake_new_arm", "self.arm_to_exponent[arm] = 0", "", "R8.1",
+      why="new arm missing from the exponent table"),
+    V("c08-m6", "C08", "treebandit", "_TreeBandit._uptake_new_arm",
+      "self.arm_to_leaf_to_rewards[arm] = defaultdict(partial(np.ndarray, 0))", "", "R8.1",
+      why="new arm has no leaf store"),
+    V("c08-m7", "C08", "linear", "_Linear._drop_existing_arm", "self.arm_to_model.pop(arm)", "", "R8.1",
+      why="model of a removed arm stays behind"),
+    V("c08-m8", "C08", "neighbors", "_Radius._predict_contexts",
+      "predictions[index] = self._get_no_nhood_predictions(lp, is_predict)", "", "R8.5",
+      why="rows without neighbours get no result"),
+    V("c08-m9", "C08", "ucb", "_UCB1.predict_expectations",
+      "return [self.arm_to_expectation.copy() for _ in range(len(contexts))]",
+      "return [self.arm_to_expectation.copy() for _ in range(len(contexts) - 1)]", "R8.5",
+      why="one result too few"),
+    V("c08-m10", "C08", "ucb", "_UCB1.predict_expectations",
+      "if contexts is None or len(contexts) == 1:\n    return self.arm_to_expectation.copy()\nelse:\n    "
+      "return [self.arm_to_expectation.copy() for _ in range(len(contexts))]",
+      "if contexts is None or len(contexts) == 1:\n    return self.arm_to_expectation\nelse:\n    "
+      "return [self.arm_to_expectation.copy() for _ in range(len(contexts))]", "R8.4",
+      why="the internal dictionary is handed out"),
+    V("c08-m11", "C08", "base_mab", "BaseMAB.add_arm",
+      "self.arm_to_status[arm] = {IS_TRAINED: False, IS_WARM: False, WARM_STARTED_BY: None}", "", "R8.1",
+      why="status entry of the new arm missing"),
+    V("c08-m12", "C08", "neighbors", "_Neighbors._drop_existing_arm", "self.lp.remove_arm(arm)", "", "R8.1",
+      why="nested learning policy keeps the removed arm"),
+    V("c08-b1", "C08", "greedy", "_EpsilonGreedy._drop_existing_arm", "self.arm_to_sum.pop(arm)",
+      "del self.arm_to_sum[arm]", benign=True),
+    V("c08-b2", "C08", "clusters", "_Clusters._uptake_new_arm",
+      "for lp in self.lp_list:\n    lp.add_arm(arm, binarizer)",
+      "for i in range(len(self.lp_list)):\n    self.lp_list[i].add_arm(arm, binarizer)", benign=True),
+    V("c08-b3", "C08", "ucb", "_UCB1._uptake_new_arm", "self.arm_to_sum[arm] = 0\nself.arm_to_count[arm] = 0",
+      "self.arm_to_count[arm] = 0\nself.arm_to_sum[arm] = 0", benign=True),
+]
